@@ -212,6 +212,12 @@ def standard_parsing_functions(Block: Any, Tx: Any) -> list[Any]:
         assert isinstance(tx, Tx)
         tx.stream(f)
 
+    def parse_optional_bool(f: IO[bytes]) -> bool | None:
+        b = f.read(1)
+        if not b:
+            return None
+        return struct.unpack("?", b)[0]  # type: ignore[no-any-return]
+
     def parse_int_6(f: IO[bytes]) -> int:
         b = f.read(6) + b"\0\0"
         return struct.unpack("<Q", b)[0]  # type: ignore[no-any-return]
@@ -236,7 +242,7 @@ def standard_parsing_functions(Block: Any, Tx: Any) -> list[Any]:
         (
             "O",
             (
-                lambda f: True if f.read(1) else False,
+                parse_optional_bool,
                 lambda f, v: f.write(b"" if v is None else struct.pack("B", v)),
             ),
         ),
